@@ -521,12 +521,20 @@ def builtin_getattr(I, obj, attr, node=None):
     if isinstance(obj, SymList):
         if attr == "append":
             def sl_append(I, x):
-                if not isinstance(x, (int, z3.ArithRef)):
+                if not isinstance(x, (int, z3.ExprRef)):
                     raise Unsupported("SymList.append of a non-scalar")
                 old_at, n, xv = obj.at, obj.n, to_term(x)
                 obj.at = lambda k: z3.If(k < n, old_at(k), xv)
                 obj.n = n + 1
             return _m(sl_append)
+        if attr == "extend":
+            def sl_extend(I, xs):
+                from .lib_numpy import as_arr
+                a = as_arr(I, xs)
+                old_at, n, fa, m = obj.at, obj.n, a.at, a.n
+                obj.at = lambda k: z3.If(k < n, old_at(k), fa(k - n))
+                obj.n = n + m
+            return _m(sl_extend)
     if isinstance(obj, SegList):
         if attr == "append":
             return _m(lambda I, x: obj.segs.append(("one", x)))
